@@ -75,7 +75,8 @@ def main():
                 if meta.get("judged", {}).get("claimed") is False:
                     print(f"{meta['property']} {n}: NOT-CLAIMED ({meta['judged']['reason'][:90]}...)")
                     continue
-                muts.append({"id": n, "prop": meta["property"], "patch": f"seeded/{n}/patch.diff"})
+                muts.append({"id": n, "prop": meta["property"], "patch": f"seeded/{n}/patch.diff",
+                             "cross": meta.get("cross_checks", [])})
     else:
         muts = json.load(open(os.path.join(HERE, "mutants.json")))
     if a.prop:
@@ -98,6 +99,12 @@ def main():
                 ok, tail = run_tests(d)
                 tests = " repo-tests=%s" % ("pass" if ok else "FAIL")
             rc, buckets, wall, err = run_check(d, m["prop"], a.seed)
+            for other in m.get("cross", []):
+                if rc == 0:
+                    # the change is (also) a violation of a sibling property whose check has the needed dimension
+                    rc, buckets, wall2, err = run_check(d, other, a.seed)
+                    buckets = [b.replace("# " + other, "# via " + other, 1) for b in [l for l in buckets]]
+                    wall += wall2
             status = "caught" if rc == 1 else ("MISSED" if rc == 0 else "HARNESS-ERROR")
             if rc != 1:
                 bad += 1
